@@ -30,21 +30,21 @@ func (r *recorder) Enter(n ast.Node) ast.Visitor {
 			top := r.stack[len(r.stack)-1]
 			where = describe(top)
 			if rn := r.t.ByNode[top]; rn != nil {
-				where += " at " + rn.Path
+				where += " at " + rn.Path()
 			}
 		}
 		r.typedNil = append(r.typedNil, describe(n))
-		r.issues = append(r.issues, Issue{"walk-nil", where, describe(n), "Enter was handed a nil node (" + describe(n) + ") under " + where})
+		r.issues = append(r.issues, Issue{"walk-nil", where, describe(n), "Enter was handed a nil node (" + describe(n) + ") under " + where, nil})
 		r.nilDepth++
 		return r
 	}
 	rn := r.t.ByNode[n]
 	if rn == nil {
-		r.issues = append(r.issues, Issue{"walk-unknown", "?", describe(n), "Enter was handed a node that is not in the tree"})
+		r.issues = append(r.issues, Issue{"walk-unknown", "?", describe(n), "Enter was handed a node that is not in the tree", nil})
 	} else {
 		r.entered[n]++
 		if r.entered[n] == 2 {
-			r.issues = append(r.issues, Issue{"walk-twice", rn.Path, rn.Type, "node entered more than once"})
+			r.issues = append(r.issues, Issue{"walk-twice", rn.Path(), rn.Type, "node entered more than once", nil})
 		}
 		var top ast.Node
 		if len(r.stack) > 0 {
@@ -55,7 +55,7 @@ func (r *recorder) Enter(n ast.Node) ast.Visitor {
 			want = rn.Parent.Node
 		}
 		if top != want {
-			r.issues = append(r.issues, Issue{"walk-parent", rn.Path, rn.Type, fmt.Sprintf("entered while %s was open, its parent is %s", describe(top), describe(want))})
+			r.issues = append(r.issues, Issue{"walk-parent", rn.Path(), rn.Type, fmt.Sprintf("entered while %s was open, its parent is %s", describe(top), describe(want)), nil})
 		}
 	}
 	r.stack = append(r.stack, n)
@@ -68,17 +68,17 @@ func (r *recorder) Exit(n ast.Node) {
 		if r.nilDepth > 0 {
 			r.nilDepth--
 		} else {
-			r.issues = append(r.issues, Issue{"walk-nil", "?", describe(n), "Exit was handed a nil node that was never entered"})
+			r.issues = append(r.issues, Issue{"walk-nil", "?", describe(n), "Exit was handed a nil node that was never entered", nil})
 		}
 		return
 	}
 	if len(r.stack) == 0 {
-		r.issues = append(r.issues, Issue{"walk-nesting", "?", describe(n), "Exit without a matching Enter"})
+		r.issues = append(r.issues, Issue{"walk-nesting", "?", describe(n), "Exit without a matching Enter", nil})
 		return
 	}
 	top := r.stack[len(r.stack)-1]
 	if top != n {
-		r.issues = append(r.issues, Issue{"walk-nesting", "?", describe(n), fmt.Sprintf("Exit(%s) while %s is the innermost open node", describe(n), describe(top))})
+		r.issues = append(r.issues, Issue{"walk-nesting", "?", describe(n), fmt.Sprintf("Exit(%s) while %s is the innermost open node", describe(n), describe(top)), nil})
 		// resynchronise if n is open further down
 		for i := len(r.stack) - 1; i >= 0; i-- {
 			if r.stack[i] == n {
@@ -100,18 +100,18 @@ func CheckWalk(prog *ast.Program, t *Tree) (issues []Issue) {
 	func() {
 		defer func() {
 			if p := recover(); p != nil {
-				r.issues = append(r.issues, Issue{"walk-panic", "?", "", fmt.Sprintf("ast.Walk panicked: %v", p)})
+				r.issues = append(r.issues, Issue{"walk-panic", "?", "", fmt.Sprintf("ast.Walk panicked: %v", p), nil})
 				r.stack = nil
 			}
 		}()
 		ast.Walk(r, prog)
 	}()
 	if len(r.stack) != 0 {
-		r.issues = append(r.issues, Issue{"walk-nesting", "?", "", fmt.Sprintf("%d nodes were entered and never exited", len(r.stack))})
+		r.issues = append(r.issues, Issue{"walk-nesting", "?", "", fmt.Sprintf("%d nodes were entered and never exited", len(r.stack)), nil})
 	}
 	for _, rn := range t.Nodes {
 		if r.entered[rn.Node] == 0 {
-			r.issues = append(r.issues, Issue{"walk-missed", rn.Path, rn.Type, "node was never handed to the visitor"})
+			r.issues = append(r.issues, Issue{"walk-missed", rn.Path(), rn.Type, "node was never handed to the visitor", nil})
 			break // one is enough; descendants are missed with it
 		}
 	}
